@@ -346,7 +346,7 @@ def empty_group_skips(ctx, rep, rule: str) -> None:
                     tests.append(n)
     rep.floor(rule, "empty-gradient test in step()", len(tests), 1)
     inc_nodes = {cfg.node_of(w.node) for w in pts.writes if w.func == step.qual and any("step" in kinds.get(t, ()) for t in w.dst)}
-    call_nodes = {cfg.node_of(c) for c in A.calls(step.node) if any(q.endswith("._per_group_step_impl") for q in pts.callees(step.qual, c))}
+    call_nodes = {cfg.node_of(c) for c in A.calls(step.node) if any(q.replace(":", ".").endswith("._per_group_step_impl") for q in pts.callees(step.qual, c))}
     for tnode in tests:
         # on the True edge (list empty) we must get back to the loop head (or exit) without touching the counter or the group step
         seen = set()
@@ -441,7 +441,7 @@ def gradients_read_after_closure(ctx, rep, rule: str) -> None:
     step = repo.method(DS, "step")
     cfg = CFG(step.node)
     closure_calls = [c for c in A.calls(step.node) if isinstance(c.func, ast.Name) and c.func.id == (step.params[1] if len(step.params) > 1 else "closure")]
-    readers = [c for c in A.calls(step.node) if any(q.endswith(".merge_and_block_gradients") or q.endswith("._mask_state_lists") for q in pts.callees(step.qual, c))]
+    readers = [c for c in A.calls(step.node) if any(q.replace(":", ".").endswith(".merge_and_block_gradients") or q.replace(":", ".").endswith("._mask_state_lists") for q in pts.callees(step.qual, c))]
     rep.floor(rule, "closure call in step()", len(closure_calls), 1)
     rep.floor(rule, "gradient-blocking calls in step()", len(readers), 1)
     bad = []
